@@ -261,11 +261,26 @@ def prog : Handler := fun args impl =>
     if isProtoDec ∧ (impl = "panic" ∨ impl = "spin") then [("C08", s!"packet decoder called by the program: {impl}")] else []
   { model := runProg src, more := o }
 
+/-- when the implementation's final value differs from what the API history supplied (the model evaluates the history
+    with plain value semantics: every constructor / adder / setter stores its arguments), the layout and shape oracles
+    are applied again to the SUPPLIED value against the implementation's bytes: "every value put into a message through
+    the API appears in the encoding" is about the supplied values, not about whatever the value holds at the end. -/
+def suppliedOracles (model impl : String) : List (String × String) :=
+  if model = impl then [] else
+  match Oracles.parseObs model, Oracles.parseObs impl with
+  | some om, some oi =>
+    if om.dump.toText = oi.dump.toText then [] else
+    let o : Oracles.Obs := { oi with dump := om.dump }
+    (Oracles.c02 o ++ Oracles.c02elem o ++ Oracles.c03 o ++ Oracles.c03elem o).map
+      (fun (p, d) => (p, "supplied through the API but not what the encoding holds: " ++ d))
+  | _, _ => []
+
 /-- `api`: the same program syntax, used by the generators of VALID API histories (in-range arguments, finished
     children, affine use): the property oracles C01/C02/C06 are evaluated on the implementation's observation -/
 def api : Handler := fun args impl =>
   let src := "".intercalate args
-  { model := runProg src, more := valueOracles impl (wantTypeOf src) }
+  let m := runProg src
+  { model := m, more := valueOracles impl (wantTypeOf src) ++ suppliedOracles m impl }
 
 /-- evaluate a value source: a closed term, or an API program ending in `;!v` -/
 def valueOf (src : String) : Except String V :=
@@ -421,6 +436,13 @@ def decH : Handler := fun args impl =>
     else v
   | _ => v
 
+/-- `apix`: valid API histories the interpreter does not model (a child is completed AFTER it was attached to its
+    container; Go pointers make the container see the completed child): no correspondence, property oracles on the
+    implementation's observation only -/
+def apix : Handler := fun args impl =>
+  let src := "".intercalate args
+  { model := impl, more := valueOracles impl (wantTypeOf src) }
+
 /-- `embed`: the implementation-side check that a container's bytes contain its children's own encodings, intact and
     in order (C06).  The model side of the statement is the container theorems; here the expected answer is "ok". -/
 def embedH : Handler := fun _ impl =>
@@ -432,7 +454,7 @@ def handlers : List (String × Handler) :=
       match a with
       | kn :: _ :: ln :: _ => if kn.startsWith "p." ∧ (i = "panic" ∨ i = "spin") then { v with more := [("C08", s!"{kn} decoder on {ln} bytes: {i}")] } else v
       | _ => v),
-   ("fn", fn), ("prog", prog), ("api", api), ("parse", parseH), ("embed", embedH),
+   ("fn", fn), ("prog", prog), ("api", api), ("apix", apix), ("parse", parseH), ("embed", embedH),
    ("rep", rep), ("rtrip", rtWith false), ("rtparse", rtWith true), ("scribble", scribble),
    ("repx", fun a i => { (rep a i) with more := [] }), ("rtx", fun a i => { (rtWith false a i) with more := [] })]
 
